@@ -12,6 +12,7 @@ EnvOf(pairs) == LET S == ToSet(pairs) IN [k \in {p[1] : p \in S} |-> (CHOOSE p \
 PathsOf(ps) == [i \in 1..Len(ps) |-> P(ps[i][1], ps[i][2])]
 WOf(j) == [fs |-> [d \in Dirs |-> ToSet(j.fs[d])], dotenv |-> j.dotenv, os |-> EnvOf(j.os), configs |-> PathsOf(j.configs)]
 OOf(j) == IF "err" \in DOMAIN j THEN Error
+          ELSE IF "vv" \in DOMAIN j /\ "dir" \notin DOMAIN j THEN [name |-> j.name, vv |-> j.vv]
           ELSE IF "dir" \in DOMAIN j THEN [name |-> j.name, dir |-> j.dir, files |-> PathsOf(j.files), vv |-> j.vv, hasvv |-> j.hasvv]
           ELSE [paths |-> PathsOf(j.paths), wd |-> j.wd, env |-> EnvOf(j.env), envfiles |-> PathsOf(j.envfiles), name |-> j.name]
 
@@ -26,6 +27,7 @@ Apply(e, x) ==
     [] e.act = "env-files" -> WithEnvFiles(x, PathsOf(e.arg))
     [] e.act = "dot-env" -> WithDotEnv(x)
     [] e.act = "load" -> Loaded(x)
+    [] e.act = "load-model" -> LoadedModel(x)
 
 VARIABLES l, phase, bad
 tvars == <<w, o, l, phase, bad>>
